@@ -72,6 +72,18 @@ pub fn run(thorough: bool, seed: u64, _replay: Option<String>) -> Report {
             text.push(' ');
         }
         let mut text: String = text.chars().take(rng.range(80, 1800)).collect();
+        if i % 6 == 5 {
+            // a short quotation in another script: a second alphabet layer right at the "too small" rule
+            // (about 32 letters; more than 32 bytes in UTF-8)
+            let other = *rng.pick(&["russian", "greek", "bulgarian", "hebrew", "arabic", "thai", "ukrainian"]);
+            let src = TEXTS.iter().find(|(n, _)| *n == other).unwrap().1;
+            let want = rng.range(12, 40);
+            let letters: String = src.chars().filter(|c| c.is_alphabetic()).take(want).collect();
+            text.push_str(" \u{ab}");
+            text.push_str(&letters);
+            text.push_str("\u{bb} ");
+            text.push_str(&stretch(&mut rng, TEXTS[0].1, 200));
+        }
         if i < 15 {
             // directed: a first alphabet layer with >= 3 sufficient scores followed by a second layer
             let firsts = ["russian", "bulgarian", "ukrainian"];
